@@ -462,6 +462,11 @@ func (x *Exec) applyContract(st *State, in ssa.Instruction, fc *FuncContract, si
 			names[fmt.Sprintf("arg%d", i)] = args[ai+i]
 		}
 	}
+	if fc.Trusted {
+		x.assumedObjInv["trusted contract applied at a call (its body is NOT verified by this check): "+pkgShort(fc.PkgPath)+"."+fc.Key] = true
+	} else if fc.Extern {
+		x.assumedObjInv["assumed contract of an external / interface / function-valued callee applied at a call: "+pkgShort(fc.PkgPath)+"."+fc.Key] = true
+	}
 	pkg := x.eng.typesPkg(fc.PkgPath)
 	ord := x.callSiteOrdinal(in, calleeName)
 	env := &Env{x: x, st: st, old: st, names: names, pkg: pkg, pkgPath: fc.PkgPath}
